@@ -19,3 +19,4 @@ open FormulaeModel
 #print axioms C02.C02_refines_counterexample_D25
 #print axioms C02.C02_refines_needs_scanner_shape
 #print axioms C02.C02_scanner_shape_partial
+#print axioms C02.C02_scanner_shape_counterexample
